@@ -6,8 +6,8 @@ def build(chk):
     u, ob = halfunit.prepare(chk)
     A = 'all operand bit patterns (2^16 x 2^16 resp. 2^16 x 2^32)'
     for name, sym in (('add', '+='), ('sub', '-='), ('mul', '*='), ('div', '/=')):
-        chk.add(ob('O1.%s_half_rhs' % name, 'h_%s_h' % name, 'half %s half: result bits == f2h(h2f(a) op h2f(b)) for all 2^32 operand pairs' % sym, 'ufar', bounds=A, timeout=120, backends=('minisat', 'kissat', 'z3')))
-        chk.add(ob('O1.%s_float_rhs' % name, 'h_%s_f' % name, 'half %s float: result bits == f2h(h2f(a) op f) for all 2^48 operand pairs' % sym, 'ufar', bounds=A, timeout=120, backends=('minisat', 'kissat', 'z3')))
+        chk.add(ob('O1.%s_half_rhs' % name, 'h_%s_h' % name, 'half %s half: result bits == f2h(h2f(a) op h2f(b)) for all 2^32 operand pairs' % sym, 'ufar', bounds=A, timeout=120, backends=('minisat', 'kissat', 'z3'), fallback='exact', fallback_kw=dict(timeout=900, backends=('kissat', 'cadical', 'minisat'))))
+        chk.add(ob('O1.%s_float_rhs' % name, 'h_%s_f' % name, 'half %s float: result bits == f2h(h2f(a) op f) for all 2^48 operand pairs' % sym, 'ufar', bounds=A, timeout=120, backends=('minisat', 'kissat', 'z3'), fallback='exact', fallback_kw=dict(timeout=900, backends=('kissat', 'cadical', 'minisat'))))
         if name in ('add', 'sub'):
             chk.add(ob('O1.%s_half_rhs.ieee' % name, 'h_%s_h' % name, 'same, with the float operation bit-blasted (IEEE RNE) instead of uninterpreted' , 'uf', bounds=A, timeout=120))
     chk.add(ob('O2.unary_minus', 'h_neg', 'unary minus flips only the sign bit, all 2^16 patterns', 'exact', bounds='all 2^16 patterns'))
